@@ -48,6 +48,13 @@ class Hist:
 
     def apply(self, edit, spec_after=None):
         """apply to the live system; on success commit the spec. returns None or the exception"""
+        if edit["op"] == "delete_pattern":
+            # self_delete() is not transactional (a recomputation that fails after the links are gone leaves a half-deleted object, outside
+            # what the properties state): the composite edit is only issued when the model without the pattern is a valid one
+            ref, err = self.reference(spec_after if spec_after is not None else self.spec_after(edit))
+            if ref is None:
+                self.log.append({"edit": edits.describe(edit), "result": "not issued: the model without the pattern is refused (" + err[:80] + ")"})
+                return ValueError("not issued: " + err[:120])
         try:
             edits.apply_live(edit, self.objs)
         except Exception as e:
